@@ -117,6 +117,18 @@ func ruleNoOrderDep(w *World, r *Report, in map[*ssa.Function]bool) {
 				if x.Low != nil || x.High != nil {
 					base = x.X
 				}
+				// xs[:len(xs)] / xs[:len(xs):len(xs)] / xs[0:] keep every element (clip, copy idiom)
+				lowOK := x.Low == nil
+				if k, ok := constInt(x.Low); ok && k == 0 {
+					lowOK = true
+				}
+				highOK := x.High == nil
+				if lc, ok := resolve(x.High).(*ssa.Call); x.High != nil && ok && builtinName(lc) == "len" && sameValue(lc.Call.Args[0], x.X) {
+					highOK = true
+				}
+				if lowOK && highOK {
+					base = nil
+				}
 			}
 			if base == nil || !isSlice(base.Type()) {
 				return
@@ -504,7 +516,7 @@ func ruleCorridor(w *World, r *Report) {
 		}
 		// positive evidence: a float comparison inside the loop against an expression that is
 		// computed from the radius (2*radius, radius+eps) guards the append, or nothing guards it
-		scaled, guarded := "", false
+		scaled, guarded, usesRadius := "", false, false
 		for _, blk := range f.Blocks {
 			t, fl, ifi := ifSuccs(blk)
 			if ifi == nil || !loop.blocks()[blk] || blk == loop.Header {
@@ -513,6 +525,9 @@ func ruleCorridor(w *World, r *Report) {
 			for _, succ := range []*ssa.BasicBlock{t, fl} {
 				if succ == ap.Block() || blockDominatedByEdge(f, blk, succ, ap.Block()) {
 					guarded = true
+					if dependsOn(w, ifi.Cond, radius, 0, map[ssa.Value]bool{}) {
+						usesRadius = true
+					}
 				}
 			}
 			c, ok := ifi.Cond.(*ssa.BinOp)
@@ -530,6 +545,8 @@ func ruleCorridor(w *World, r *Report) {
 			r.add("FILTER-SUBSET", key, w.Pos(ap.Pos()), Violated, "the append is guarded by a comparison with an expression computed from the radius, not with the radius itself ("+scaled+")")
 		case !guarded:
 			r.add("FILTER-SUBSET", key, w.Pos(ap.Pos()), Violated, "the append is unconditional inside the loop over the candidates: every candidate is added whatever its distance")
+		case !usesRadius:
+			r.add("FILTER-SUBSET", key, w.Pos(ap.Pos()), Violated, "no test that decides this append depends on the radius (directly, through a helper or through a closure that captured it): a candidate is added without its distance being compared with the radius")
 		default:
 			r.add("FILTER-SUBSET", key, w.Pos(ap.Pos()), Undecided, "the append is guarded by a test that was not recognised as distance < radius (a helper or closure result)")
 		}
@@ -1553,6 +1570,91 @@ func isArithOn(v ssa.Value, p ssa.Value) bool {
 				if resolve(a) == p {
 					return true
 				}
+			}
+		}
+	}
+	return false
+}
+
+// dependsOn: the value is computed from target -- directly, through
+// arithmetic, phis and local variables, through the results of module helpers
+// that receive it, or through closures that captured it (their bodies are
+// searched for any use of the captured variable).
+func dependsOn(w *World, v ssa.Value, target ssa.Value, depth int, seen map[ssa.Value]bool) bool {
+	if v == nil || depth > 12 || seen[v] {
+		return false
+	}
+	seen[v] = true
+	if v == target || resolve(v) == target {
+		return true
+	}
+	switch x := v.(type) {
+	case *ssa.BinOp:
+		return dependsOn(w, x.X, target, depth+1, seen) || dependsOn(w, x.Y, target, depth+1, seen)
+	case *ssa.UnOp:
+		if x.Op == token.MUL {
+			if al, ok := x.X.(*ssa.Alloc); ok {
+				for _, sv := range storesInto(al) {
+					if dependsOn(w, sv, target, depth+1, seen) {
+						return true
+					}
+				}
+				return false
+			}
+		}
+		return dependsOn(w, x.X, target, depth+1, seen)
+	case *ssa.Convert:
+		return dependsOn(w, x.X, target, depth+1, seen)
+	case *ssa.ChangeType:
+		return dependsOn(w, x.X, target, depth+1, seen)
+	case *ssa.Extract:
+		return dependsOn(w, x.Tuple, target, depth+1, seen)
+	case *ssa.Phi:
+		for _, e := range x.Edges {
+			if dependsOn(w, e, target, depth+1, seen) {
+				return true
+			}
+		}
+	case *ssa.FieldAddr:
+		return dependsOn(w, x.X, target, depth+1, seen)
+	case *ssa.Field:
+		return dependsOn(w, x.X, target, depth+1, seen)
+	case *ssa.Lookup:
+		return dependsOn(w, x.X, target, depth+1, seen) || dependsOn(w, x.Index, target, depth+1, seen)
+	case *ssa.MakeClosure:
+		fn, _ := x.Fn.(*ssa.Function)
+		for i, b := range x.Bindings {
+			if !bindingIs(b, target) {
+				continue
+			}
+			// captured: used at all inside the closure?
+			if fn != nil && i < len(fn.FreeVars) && fn.FreeVars[i].Referrers() != nil && len(*fn.FreeVars[i].Referrers()) > 0 {
+				return true
+			}
+		}
+	case *ssa.Call:
+		for _, a := range x.Call.Args {
+			if dependsOn(w, a, target, depth+1, seen) {
+				return true
+			}
+		}
+		// a closure value (possibly one of several assigned to a variable)
+		if dependsOn(w, x.Call.Value, target, depth+1, seen) {
+			return true
+		}
+	}
+	return false
+}
+
+// bindingIs: the captured variable holds target (a parameter spilled into a cell).
+func bindingIs(b ssa.Value, target ssa.Value) bool {
+	if b == target {
+		return true
+	}
+	if al, ok := b.(*ssa.Alloc); ok {
+		for _, sv := range storesInto(al) {
+			if sv == target || resolve(sv) == target {
+				return true
 			}
 		}
 	}
